@@ -691,6 +691,8 @@ func (x *Exec) globalValue(pk *Pkg, name string, t types.Type) (Val, error) {
 		if _, isCfg := pk.Contracts.Configs[name]; isCfg {
 			// configuration variable: symbolic, constant during the call
 			v = x.symbolicConfig(key, t)
+		} else if pk.Contracts.ConstVars[name] && (gi == nil || gi.Kind == "opaque") {
+			v = OpaqueVal{What: key}
 		} else if pk.Contracts.ConstVars[name] {
 			if gi == nil {
 				return nil, fmt.Errorf("constvar %s has no initialiser", key)
